@@ -25,6 +25,7 @@ import (
 	"os"
 	"os/exec"
 	"path/filepath"
+	"regexp"
 	"sort"
 	"strings"
 	"sync"
@@ -33,7 +34,7 @@ import (
 	"verif/internal/vrun"
 )
 
-var prefixes = []string{"app", "APP", "My_App", "a1"}
+var prefixes = []string{"app", "APP", "My_App", "a1", ""}
 var formats = []string{"yaml", "json", "toml"}
 var srcNames = []string{"dflt", "file", "env", "flag", "fdef"}
 var flagModeNames = []string{"none", "single-unchanged", "single-changed", "multi-one-changed", "multi-none-changed"}
@@ -310,6 +311,8 @@ func classifyGot(fp FieldPlan, kind, got string) string {
 	return "other"
 }
 
+var reEnvPath = regexp.MustCompile(`\[([A-Za-z0-9_\-]+)\]`)
+
 func norm(s string) string { return strings.ReplaceAll(strings.ToLower(s), "-", "_") }
 
 // namesLeaf: the error text names the leaf if, level by level and in order, it contains the Go field
@@ -401,6 +404,26 @@ func judgePrec(r *vrun.Run, c *Case, res *Result) {
 			}
 			r.Violation(vrun.Sig{"clause": "validation", "effect": "offending-field-not-named", "level": depthName(blank[0]), "style": styleName},
 				fmt.Sprintf("error %q names none of the blank required fields %v", lo.ErrText, bl), wit(map[string]any{"blank": bl}))
+		}
+		// when the error also gives the path of the section as environment variables spell it ("[PREFIX_SECTION_SUB]"), that
+		// path leads to one of the blank fields: it is a prefix of the name of the variable which would fill it
+		if m := reEnvPath.FindStringSubmatch(lo.ErrText); m != nil {
+			r.Obs("validation_errors_with_an_environment_path_judged", 1)
+			ok := false
+			for _, l := range blank {
+				if strings.HasPrefix(norm(l.envName(c.Prefix)), norm(m[1])) {
+					ok = true
+					break
+				}
+			}
+			if !ok {
+				var bl []string
+				for _, l := range blank {
+					bl = append(bl, l.envName(c.Prefix))
+				}
+				r.Violation(vrun.Sig{"clause": "validation", "effect": "environment-path-leads-to-no-offending-field", "level": depthName(blank[0]), "style": styleName},
+					fmt.Sprintf("error %q gives the environment path %q which is a prefix of none of the variables of the blank required fields %v", lo.ErrText, m[1], bl), wit(map[string]any{"blank_env_names": bl}))
+			}
 		}
 		// the values of a structure whose loading failed are not judged (don't care)
 		return
